@@ -186,9 +186,14 @@ def _v(sp, vals):
 def recipes(tier='quick'):
     """Yield (family, options(dict of small strings), builder) for built-in linear operators with an adjoint."""
     R = []
+    seen = set()
 
     def add(family, opts, fn):
-        R.append((family, opts, fn))
+        key = (family, tuple(sorted((k, str(v)) for k, v in opts.items())))
+        if key in seen:                 # (family, options) identifies a recipe (replay looks it up by that)
+            return
+        seen.add(key)
+        R.append((family, dict(opts), fn))
 
     def tspaces():
         yield 'rn', odl.rn(3)
@@ -346,4 +351,323 @@ def recipes(tier='quick'):
                 lambda axes=axes, pad=pad: odl.trafos.WaveletTransform(w2, 'haar', nlevels=1, pad_mode=pad, axes=axes).inverse)
     add('WaveletTransform', {'wavelet': 'db2', 'pad_mode': 'pywt_periodic'},
         lambda: odl.trafos.WaveletTransform(odl.uniform_discr(0, 1, 8), 'db2', nlevels=1, pad_mode='pywt_periodic'))
+    wide_recipes(tier, add)
     return R
+
+
+# ====================================================================== systematic widening
+# Every constructor keyword of every built-in linear class gets >= 2 materially different values, crossed (all-pairs
+# in the quick tier, full product in the thorough tier) with the space axes of harness/catutil.py.  Option values are
+# short labels; the label vocabulary of spaces extends the one above so that family-level signatures keep matching.
+def _space_axes(kinds=('rn', 'discr'), fields=('real', 'complex'), precs=('double', 'single'),
+                weightings=('none', 'const', 'array'), shapes=('1d', '2d', '3d'), bdrys=('False', 'True', 'asym')):
+    from collections import OrderedDict as OD
+    return OD([('kind', list(kinds)), ('field', list(fields)), ('prec', list(precs)), ('weighting', list(weightings)),
+               ('shape', list(shapes)), ('bdry', list(bdrys) if 'discr' in kinds else ['False'])])
+
+
+_SP_KEYS = ('kind', 'field', 'prec', 'weighting', 'shape', 'bdry')
+_SP_CACHE = {}
+
+
+def _sp(c, **kw):
+    """space of a combo (cached) -> (label dict, space)"""
+    from . import catutil as U
+    key = tuple(c[k] for k in _SP_KEYS) + tuple(sorted((k, str(v)) for k, v in kw.items()))
+    if key not in _SP_CACHE:
+        _SP_CACHE[key] = U.mk_space(**dict({k: c[k] for k in _SP_KEYS}, **kw))
+    return _SP_CACHE[key]
+
+
+def _sp_valid(c):
+    return c['kind'] == 'discr' or c['bdry'] == 'False'
+
+
+def _combos(tier, opt_axes, sp_axes, valid=None, cap=400):
+    """option axes x space axes: all-pairs (quick) / full product, thinned deterministically above `cap` (thorough)."""
+    from collections import OrderedDict as OD
+    from . import catutil as U
+    axes = OD(list(opt_axes.items()) + list(sp_axes.items()))
+
+    def ok(c):
+        return _sp_valid(c) and (valid is None or valid(c))
+    pw = U.pairwise(axes, ok)
+    if tier == 'quick':
+        return pw
+    full = [c for c in U.product(axes) if ok(c)]
+    if len(full) > cap:
+        step = len(full) // cap + 1
+        keep = {tuple(c.values()) for c in pw}
+        full = [c for i, c in enumerate(full) if i % step == 0 or tuple(c.values()) in keep]
+    return full
+
+
+def _o(c, lab, *names, **extra):
+    """options dict of a recipe: chosen option axes + the space label (+ extras)."""
+    o = {}
+    for n in names:
+        o[n] = c[n]
+    o.update(lab)
+    o.update(extra)
+    return o
+
+
+def wide_recipes(tier, add):
+    from collections import OrderedDict as OD
+    import scipy.sparse
+    from . import catutil as U
+    vec, posvec = U.vec, U.posvec
+    RN, CN = odl.RealNumbers(), odl.ComplexNumbers()
+
+    # ---------------------------------------------------------------- default_ops
+    SC = {'zero': 0.0, 'one': 1, 'neg': -2.0, 'half': 0.5, 'imag': 2j, 'complex-general': 1.5 - 2j}
+
+    def sc_ok(c):
+        return c['field'] == 'complex' or c['scalar'] not in ('imag', 'complex-general')
+    for c in _combos(tier, OD([('scalar', list(SC))]), _space_axes(), sc_ok):
+        lab, sp = _sp(c)
+        add('ScalingOperator', _o(c, lab, 'scalar'), lambda sp=sp, a=SC[c['scalar']]: odl.ScalingOperator(sp, a))
+    for c in _combos(tier, OD(), _space_axes()):
+        lab, sp = _sp(c)
+        add('IdentityOperator', _o(c, lab), lambda sp=sp: odl.IdentityOperator(sp))
+        add('InnerProductOperator', _o(c, lab), lambda sp=sp: odl.InnerProductOperator(vec(sp)))
+        add('x.T', _o(c, lab), lambda sp=sp: vec(sp).T)
+        add('RealPart', _o(c, lab), lambda sp=sp: odl.RealPart(sp))
+        add('ImagPart', _o(c, lab), lambda sp=sp: odl.ImagPart(sp))
+    # the zero ConstantOperator is flagged linear (independent of the space: three plain ones)
+    for sn_, sp_ in (('rn', odl.rn(3)), ('cn', odl.cn(2)), ('discr', odl.uniform_discr(0, 1, 3))):
+        add('ConstantOperator', {'constant': 'zero', 'space': sn_}, lambda sp_=sp_: odl.ConstantOperator(sp_.zero()))
+        add('ConstantOperator', {'constant': 'zero', 'space': sn_, 'range': 'other'},
+            lambda sp_=sp_: odl.ConstantOperator(odl.rn(2).zero(), domain=sp_, range=odl.rn(2)))
+    for fn_, fld in (('real', RN), ('complex', CN)):
+        for sn, a in SC.items():
+            if fn_ == 'real' and sn in ('imag', 'complex-general'):
+                continue
+            add('ScalingOperator', {'space': 'field-' + fn_, 'scalar': sn}, lambda fld=fld, a=a: odl.ScalingOperator(fld, a))
+        add('IdentityOperator', {'space': 'field-' + fn_}, lambda fld=fld: odl.IdentityOperator(fld))
+    # on product spaces (power / general / nested ; weighting none / const / array)
+    for c in U.cross(tier, OD([('form', ['power1', 'power2', 'power3', 'general', 'nested', 'nested-general']),
+                               ('pspace-weighting', ['none', 'const', 'array']), ('field', ['real', 'complex']),
+                               ('scalar', ['neg', 'complex-general'])]),
+                     lambda c: c['field'] == 'complex' or c['scalar'] == 'neg'):
+        base = odl.cn(2) if c['field'] == 'complex' else odl.rn(2)
+        o = {'space': 'pspace-' + c['form'], 'pspace-weighting': c['pspace-weighting'], 'field': c['field']}
+
+        def ps(c=c, base=base):
+            return U.mk_pspace(base, c['form'], c['pspace-weighting'])
+        add('ScalingOperator', dict(o, scalar=c['scalar']), lambda ps=ps, a=SC[c['scalar']]: odl.ScalingOperator(ps(), a))
+        add('IdentityOperator', o, lambda ps=ps: odl.IdentityOperator(ps()))
+        add('ZeroOperator', o, lambda ps=ps: odl.ZeroOperator(ps()))
+        add('MultiplyOperator', dict(o, multiplicand='element'), lambda ps=ps: odl.MultiplyOperator(vec(ps())))
+        add('InnerProductOperator', o, lambda ps=ps: odl.InnerProductOperator(vec(ps())))
+    # ZeroOperator: range default / other size / complex version / weighted version of the domain
+    for c in _combos(tier, OD([('range', ['default', 'same', 'other-size', 'complex', 'other-weighting'])]), _space_axes()):
+        lab, sp = _sp(c)
+
+        def mk(sp=sp, r=c['range']):
+            if r == 'default':
+                return odl.ZeroOperator(sp)
+            ran = {'same': sp, 'other-size': odl.tensor_space(2, dtype=sp.dtype), 'complex': sp.complex_space,
+                   'other-weighting': odl.tensor_space(sp.shape, dtype=sp.dtype, weighting=4.0)}[r]
+            return odl.ZeroOperator(sp, range=ran)
+        add('ZeroOperator', _o(c, lab, 'range'), mk)
+    # MultiplyOperator: multiplicand element / scalar / array ; domain default / space / field ; range default / space
+    def mul_ok(c):
+        m, d, r = c['multiplicand'], c['domain'], c['range']
+        if m in ('scalar', 'scalar-complex', 'array'):
+            if not (d == 'space' and r == 'space'):
+                return False
+        if m in ('scalar-complex', 'element-real') and c['field'] != 'complex':
+            return False
+        return True
+    for c in _combos(tier, OD([('multiplicand', ['element', 'element-real', 'element-zeros', 'scalar', 'scalar-complex', 'array']),
+                               ('domain', ['default', 'space', 'field']), ('range', ['default', 'space'])]),
+                     _space_axes(), mul_ok):
+        lab, sp = _sp(c)
+
+        def mk(sp=sp, c=c):
+            m = c['multiplicand']
+            if m == 'element':
+                y = vec(sp)
+            elif m == 'element-real':           # real-valued multiplicand in a complex space
+                y = sp.element(np.resize([2.0, -1.0, 0.5], sp.size).reshape(sp.shape))
+            elif m == 'element-zeros':
+                y = vec(sp, [0.0, 2.0, 0.0], [0.0, 1 - 1j, 0.0])
+            elif m == 'scalar':
+                y = -1.5
+            elif m == 'scalar-complex':
+                y = 0.5 + 2j
+            else:
+                y = vec(sp).asarray().copy()
+            kw = {}
+            if c['domain'] == 'space':
+                kw['domain'] = sp
+            elif c['domain'] == 'field':
+                kw['domain'] = sp.field
+            if c['range'] == 'space':
+                kw['range'] = sp
+            return odl.MultiplyOperator(y, **kw)
+        add('MultiplyOperator', _o(c, lab, 'multiplicand', 'domain', 'range'), mk)
+    for fn_, fld, a in (('real', RN, -1.5), ('complex', CN, 0.5 + 2j)):
+        add('MultiplyOperator', {'space': 'field-' + fn_, 'multiplicand': 'scalar', 'domain': 'field', 'range': 'field'},
+            lambda fld=fld, a=a: odl.MultiplyOperator(a, domain=fld, range=fld))
+    # ComplexEmbedding: every class of scalar the adjoint / inverse branch on
+    CE = OD([('default', None), ('one', 1.0), ('real', 2.0), ('neg', -1.5), ('imag', 1j), ('neg-imag', -2j),
+             ('complex-general', 2 + 1j), ('complex-general-neg', -1 - 0.5j), ('zero', 0.0)])
+    for c in _combos(tier, OD([('scalar', list(CE))]), _space_axes()):
+        lab, sp = _sp(c)
+        a = CE[c['scalar']]
+        add('ComplexEmbedding', _o(c, lab, 'scalar'),
+            lambda sp=sp, a=a: odl.ComplexEmbedding(sp) if a is None else odl.ComplexEmbedding(sp, scalar=a))
+
+    # ---------------------------------------------------------------- tensor_ops: pointwise operators on vector fields
+    def pw_ok(c):
+        return not (c['field'] == 'complex' and c['base'] == 'discr2d-bdry')
+    BASES = {'rn': lambda f, p: U.mk_space('rn', f, p, shape='1d')[1],
+             'rn-const': lambda f, p: U.mk_space('rn', f, p, weighting='const')[1],
+             'discr2d': lambda f, p: U.mk_space('discr', f, p, shape='2d')[1],
+             'discr2d-bdry': lambda f, p: U.mk_space('discr', f, p, shape='2d', bdry='asym')[1]}
+    PWW = {'none': None, 'unit-scalar': 1.0, 'unit-array': 'ones', 'scalar': 2.0, 'array': 'arr'}
+
+    def opw(n, w):
+        if w == 'ones':
+            return [1.0] * n
+        if w == 'arr':
+            return [2.0, 0.5, 4.0][:n]
+        return w
+    for c in U.cross(tier, OD([('pspace-weighting', ['none', 'const', 'array']), ('op-weighting', list(PWW)),
+                               ('length', ['1', '2', '3']), ('base', list(BASES)), ('field', ['real', 'complex']),
+                               ('prec', ['double', 'single']), ('vecfield', ['element', 'list'])]), pw_ok):
+        n = int(c['length'])
+        o = {k: c[k] for k in ('pspace-weighting', 'op-weighting', 'length', 'base', 'vecfield')}
+        if c['field'] == 'complex':
+            o['dtype'] = 'complex'
+        if c['prec'] == 'single':
+            o['prec'] = 'single'
+        if c['base'] == 'discr2d-bdry':
+            o['nodes_on_bdry'] = 'True'
+
+        def ps(c=c, n=n):
+            base = BASES[c['base']](c['field'], c['prec'])
+            return U.mk_pspace(base, 'power%d' % n, c['pspace-weighting'])
+
+        def vf(ps_, c=c):
+            v = vec(ps_)
+            return [vi.asarray().copy() for vi in v] if c['vecfield'] == 'list' else v
+        w = opw(n, PWW[c['op-weighting']])
+        kw = {} if w is None else {'weighting': w}
+        add('PointwiseInner', o, lambda ps=ps, vf=vf, kw=kw: odl.PointwiseInner(ps(), vf(ps()), **kw))
+        add('PointwiseInnerAdjoint', o, lambda ps=ps, vf=vf, kw=kw: odl.operator.tensor_ops.PointwiseInnerAdjoint(
+            ps()[0], vf(ps()), vfspace=ps(), **kw))
+        if c['vecfield'] == 'element':
+            o2 = {k: v for k, v in o.items() if k != 'vecfield'}
+            add('PointwiseSum', o2, lambda ps=ps, kw=kw: odl.PointwiseSum(ps(), **kw))
+    # PointwiseInnerAdjoint with the vector-field space inferred from (sspace, vecfield, weighting)
+    for wn in PWW:
+        for fld in ('real', 'complex'):
+            def mk(wn=wn, fld=fld):
+                base = odl.cn(2) if fld == 'complex' else odl.rn(2)
+                v = vec(odl.ProductSpace(base, 2))
+                w = opw(2, PWW[wn])
+                return odl.operator.tensor_ops.PointwiseInnerAdjoint(base, v, **({} if w is None else {'weighting': w}))
+            add('PointwiseInnerAdjoint', {'vfspace': 'inferred', 'op-weighting': wn, 'field': fld}, mk)
+
+    # ---------------------------------------------------------------- MatrixOperator
+    MATS = {'real': np.array([[1.0, 2.0, 0.0], [-1.0, 0.5, 3.0]]),
+            'complex': np.array([[1 + 1j, 2.0, 0.0], [-1j, 0.5, 3 - 2j]]),
+            'float32': np.array([[1.0, 2.0, 0.0], [-1.0, 0.5, 3.0]], dtype='float32'),
+            'int': np.array([[1, 2, 0], [-1, 0, 3]]),
+            'square': np.array([[2.0, 1.0, 0.0], [0.0, 1.0, -1.0], [0.5, 0.0, 1.0]])}
+    FMT = {'dense': lambda m: m, 'dense-F': np.asfortranarray, 'csr': scipy.sparse.csr_matrix, 'csc': scipy.sparse.csc_matrix,
+           'coo': scipy.sparse.coo_matrix, 'list': lambda m: m.tolist()}
+
+    def mat_ok(c):
+        if c['format'] in ('csr', 'csc', 'coo') and c['axis'] != '0':
+            return False                # documented: sparse matrices need a 1-d domain
+        if c['axis'] != '0' and c['domain'] != 'explicit':
+            return False
+        if c['weighting'] != 'none' and c['domain'] != 'explicit' and c['range'] != 'explicit':
+            return False
+        if c['format'] == 'list' and c['matrix'] in ('float32',):
+            return False
+        return True
+
+    def mat_mk(c):
+        M = FMT[c['format']](MATS[c['matrix']])
+        cplx = c['matrix'] == 'complex' or c['field'] == 'complex'
+        dt = 'complex128' if cplx else 'float64'
+        ddt = 'complex128' if c['field'] == 'complex' else 'float64'
+        w = {'none': {}, 'const': {'weighting': 2.0}, 'array': 'array'}[c['weighting']]
+        nr, nc = MATS[c['matrix']].shape
+
+        def space(shape, dtype, which):
+            if w == 'array':
+                arr = np.resize(np.array([1.0, 2.0, 0.5, 4.0]), int(np.prod(shape))).reshape(shape)
+                return odl.tensor_space(shape, dtype=dtype, weighting=arr if which == 'd' else 2 * arr)
+            kw = dict(w)
+            if kw and which == 'r':
+                kw['weighting'] = 4.0
+            return odl.tensor_space(shape, dtype=dtype, **kw)
+        kw = {}
+        ax = int(c['axis'])
+        dshape, rshape = (nc,), (nr,)
+        if ax != 0:
+            dshape, rshape = (2, nc), (2, nr)
+        if c['domain'] == 'explicit':
+            kw['domain'] = space(dshape, ddt, 'd')
+        if c['range'] == 'explicit':
+            kw['range'] = space(rshape, dt, 'r')
+        if ax != 0:
+            kw['axis'] = ax
+        return odl.MatrixOperator(M, **kw)
+    for c in U.cross(tier, OD([('format', list(FMT)), ('matrix', list(MATS)), ('domain', ['default', 'explicit']),
+                               ('range', ['default', 'explicit']), ('weighting', ['none', 'const', 'array']),
+                               ('axis', ['0', '1', '-1']), ('field', ['real', 'complex'])]), mat_ok):
+        o = {k: c[k] for k in ('format', 'matrix', 'domain', 'range', 'weighting', 'axis')}
+        if c['field'] == 'complex':
+            o['dtype'] = 'complex'
+        try:
+            op0 = mat_mk(c)
+        except (ValueError, TypeError):
+            continue            # combination rejected by the constructor (e.g. complex matrix into an explicit real range)
+        # 'cast': the range dtype is wider than the domain dtype (real -> complex, float32 -> float64, int -> float)
+        o['cast'] = 'none' if np.can_cast(op0.range.dtype, op0.domain.dtype) else 'widening'
+        add('MatrixOperator', o, lambda c=c: mat_mk(c))
+    # axis 0 of a 2-d domain (the matrix acts on the FIRST axis, the second is a batch axis)
+    for fmt in ('dense', 'dense-F'):
+        add('MatrixOperator', {'format': fmt, 'matrix': 'real', 'domain': 'explicit-2d', 'range': 'default', 'weighting': 'none', 'axis': '0'},
+            lambda fmt=fmt: odl.MatrixOperator(FMT[fmt](MATS['real']), domain=odl.rn((3, 2)), axis=0))
+
+    # ---------------------------------------------------------------- sampling / flattening
+    def samp_ok(c):
+        if c['shape'] == '3d':
+            return False
+        if c['variant'] in ('integrate', 'dirac-char') and False:
+            return False
+        return True
+    PTS1 = {'unique': [[0, 2]], 'repeated': [[0, 0, 1]], 'flat-list': [2, 0], 'single-int': 1}
+    PTS2 = {'unique': [[0, 1], [2, 0]], 'repeated': [[1, 1, 0], [2, 2, 0]], 'flat-list': [[1], [1]], 'single-int': [1, 2]}
+    for c in _combos(tier, OD([('variant', ['default', 'point_eval', 'integrate']), ('indices', list(PTS1))]),
+                     _space_axes(shapes=('1d', '2d')), samp_ok):
+        lab, sp = _sp(c)
+        pts = (PTS1 if sp.ndim == 1 else PTS2)[c['indices']]
+        kw = {} if c['variant'] == 'default' else {'variant': c['variant']}
+        add('SamplingOperator', _o(c, lab, 'variant', 'indices'),
+            lambda sp=sp, pts=pts, kw=kw: odl.SamplingOperator(sp, pts, **kw))
+    for c in _combos(tier, OD([('variant', ['default', 'char_fun', 'dirac']), ('indices', list(PTS1))]),
+                     _space_axes(shapes=('1d', '2d')), samp_ok):
+        lab, sp = _sp(c)
+        pts = (PTS1 if sp.ndim == 1 else PTS2)[c['indices']]
+        kw = {} if c['variant'] == 'default' else {'variant': c['variant']}
+        add('WeightedSumSamplingOperator', _o(c, lab, 'variant', 'indices'),
+            lambda sp=sp, pts=pts, kw=kw: odl.WeightedSumSamplingOperator(sp, pts, **kw))
+    for c in _combos(tier, OD([('order', ['default', 'C', 'F'])]), _space_axes()):
+        lab, sp = _sp(c)
+        kw = {} if c['order'] == 'default' else {'order': c['order']}
+        add('FlatteningOperator', _o(c, lab, 'order'), lambda sp=sp, kw=kw: odl.FlatteningOperator(sp, **kw))
+        add('FlatteningOperatorInverse', _o(c, lab, 'order'), lambda sp=sp, kw=kw: odl.FlatteningOperator(sp, **kw).inverse)
+    wide_recipes_2(tier, add)
+
+
+def wide_recipes_2(tier, add):
+    pass
